@@ -45,6 +45,7 @@ class ComputationItem(EFLRItem, DimensionedItem):
                 raise RuntimeError("A Computation must have the same number of values and zones if both are "
                                    f"defined; got {nv} values and {nz} zones in {self}")
 
+        self._forget_dimension_from_values()
         self._check_axis_vs_dimension()
         self._check_or_set_value_dimensionality(self.values.value)
 
